@@ -16,6 +16,7 @@ import (
 	"fmt"
 	"io"
 	"net"
+	"os"
 	"strings"
 	"time"
 
@@ -39,8 +40,31 @@ type logReader struct {
 	Pos         int
 	Rng         *hx.Rand
 	DataWithEOF bool
-	Log         []chunk
+	// TempErrs: non-final chunks at or after position TempAfter may come together with a
+	// non-EOF error (deadline, short record, temporary) -- a caller may keep reading after those.
+	TempErrs  bool
+	TempAfter int
+	Log       []chunk
 }
+
+type tempError struct{ msg string }
+
+func (e tempError) Error() string   { return e.msg }
+func (e tempError) Temporary() bool { return true }
+func (e tempError) Timeout() bool   { return true }
+
+// the error kinds a reader may return together with data, apart from io.EOF
+var dataErrs = []error{os.ErrDeadlineExceeded, io.ErrUnexpectedEOF, tempError{"temporary failure"}, io.ErrNoProgress}
+
+func isDataErr(err error) bool {
+	for _, e := range dataErrs {
+		if errors.Is(err, e) {
+			return true
+		}
+	}
+	return false
+}
+
 type chunk struct {
 	B   []byte
 	Err bool
@@ -61,7 +85,12 @@ func (l *logReader) Read(p []byte) (int, error) {
 		n = 1 + l.Rng.Intn(n)
 	}
 	copy(p, l.Data[l.Pos:l.Pos+n])
+	startPos := l.Pos
 	l.Pos += n
+	if l.TempErrs && l.Pos < len(l.Data) && startPos >= l.TempAfter && l.Rng.Chance(1, 3) {
+		l.Log = append(l.Log, chunk{append([]byte{}, p[:n]...), false}) // not final: the caller reads on
+		return n, dataErrs[l.Rng.Intn(len(dataErrs))]
+	}
 	last := l.Pos == len(l.Data) && l.DataWithEOF
 	l.Log = append(l.Log, chunk{append([]byte{}, p[:n]...), last})
 	if last {
@@ -113,6 +142,7 @@ type session struct {
 	C2S      [][]byte `json:"c2s"`
 	S2C      [][]byte `json:"s2c"`
 	EOFData  bool     `json:"eof_with_data"`
+	TempErr  bool     `json:"data_with_temp_errors"`
 	Seed     uint64   `json:"seed"`
 }
 
@@ -187,7 +217,7 @@ func main() {
 		// ---- client handshake and writes ----
 		var c2s bytes.Buffer
 		cr := &countReader{r: bytes.NewReader(s.Rnd)}
-		s2cReader := &logReader{Rng: rng.Fork(), DataWithEOF: s.EOFData}
+		s2cReader := &logReader{Rng: rng.Fork(), DataWithEOF: s.EOFData, TempErrs: s.TempErr}
 		client := obfuscated2.NewObfuscated2(cr, rw{s2cReader, &c2s})
 		var herr error
 		p, pv := hx.Recover(func() { herr = client.Handshake(proto, s.DC, mtproxy.Secret{Secret: s.Secret}) })
@@ -285,7 +315,7 @@ func main() {
 			tx.HB(kE), tx.HB(ivE), tx.HB(kD), tx.HB(ivD), tx.HB(shaE), tx.HB(shaD), tx.HB(ksE), tx.HB(ksD))
 
 		// ---- server accept, reads, writes ----
-		c2sReader := &logReader{Data: c2s.Bytes(), Rng: rng.Fork(), DataWithEOF: s.EOFData}
+		c2sReader := &logReader{Data: c2s.Bytes(), Rng: rng.Fork(), DataWithEOF: s.EOFData, TempErrs: s.TempErr, TempAfter: 64}
 		var s2c bytes.Buffer
 		var srv io.ReadWriter
 		var md obfuscated2.Metadata
@@ -303,6 +333,9 @@ func main() {
 			for i := 0; i < 100000; i++ {
 				n, err := r.Read(buf[:rng.Range(1, len(buf))])
 				out = append(out, buf[:n]...)
+				if err != nil && isDataErr(err) && !errors.Is(err, io.EOF) {
+					continue // a transient error: the n bytes count, the caller keeps reading
+				}
 				if err != nil {
 					return out, err
 				}
@@ -325,7 +358,7 @@ func main() {
 				header, md.Protocol, int16(md.DC), s.DC, len(cwire), len(s.C2S), len(sdata), len(schunks), serr, len(swire), len(cdata), cerr)
 		}
 		c.Nontrivial(fmt.Sprintf("%x/%x/%d/%x/%d/%d", s.Rnd[:8], s.Protocol, s.DC, s.Secret, len(cwire), len(swire)))
-		c.Sample(map[string]interface{}{"protocol": s.Protocol, "dc": s.DC, "secret_len": len(s.Secret), "candidates_skipped": cr.n/64 - 1, "c2s_bytes": len(cwire), "s2c_bytes": len(swire), "eof_with_data": s.EOFData})
+		c.Sample(map[string]interface{}{"protocol": s.Protocol, "dc": s.DC, "secret_len": len(s.Secret), "candidates_skipped": cr.n/64 - 1, "c2s_bytes": len(cwire), "s2c_bytes": len(swire), "eof_with_data": s.EOFData, "data_with_temp_errors": s.TempErr})
 		// ---- oracle ----
 		sent := bytes.Join(s.C2S, nil)
 		back := bytes.Join(s.S2C, nil)
@@ -336,13 +369,17 @@ func main() {
 			c.Violate("metadata-mismatch", fmt.Sprintf("server recovered protocol % x dc %d, client sent % x dc %d", md.Protocol, int16(md.DC), proto, s.DC), sh, ix, s)
 		case !bytes.Equal(sdata, sent) || !errors.Is(serr, io.EOF):
 			sig := "stream-client-to-server-altered"
-			if s.EOFData {
+			if s.TempErr {
+				sig = "data-with-error-not-decrypted"
+			} else if s.EOFData {
 				sig = "data-with-eof-not-decrypted"
 			}
 			c.Violate(sig, fmt.Sprintf("client wrote %d bytes, server read %d bytes (equal=%v, err=%v), eof-with-data=%v", len(sent), len(sdata), bytes.Equal(sdata, sent), serr, s.EOFData), sh, ix, s)
 		case !bytes.Equal(cdata, back) || !errors.Is(cerr, io.EOF):
 			sig := "stream-server-to-client-altered"
-			if s.EOFData {
+			if s.TempErr {
+				sig = "data-with-error-not-decrypted"
+			} else if s.EOFData {
 				sig = "data-with-eof-not-decrypted"
 			}
 			c.Violate(sig, fmt.Sprintf("server wrote %d bytes, client read %d bytes (equal=%v, err=%v), eof-with-data=%v", len(back), len(cdata), bytes.Equal(cdata, back), cerr, s.EOFData), sh, ix, s)
@@ -459,7 +496,7 @@ func main() {
 		return ws
 	}
 	mk := func(bad int, tag []byte, dc int, secret []byte, eof bool) session {
-		return session{Rnd: mkRnd(bad), Protocol: tag, DC: dc, Secret: secret, C2S: writes(), S2C: writes(), EOFData: eof, Seed: c.Rng.U64()}
+		return session{Rnd: mkRnd(bad), Protocol: tag, DC: dc, Secret: secret, C2S: writes(), S2C: writes(), EOFData: eof, TempErr: c.Rng.Chance(1, 2), Seed: c.Rng.U64()}
 	}
 	// ---- corpus: last chunk delivered together with io.EOF (failed before fix 7d0ada58d) ----
 	s0 := mk(0, tags[1], 2, nil, true)
@@ -526,6 +563,6 @@ func main() {
 			stack(cid, dcs[c.Rng.Intn(len(dcs))], ps, r%2 == 0)
 		}
 	}
-	c.Obs.Rule = "obfuscated2 sessions: client Handshake on a random stream with 0-4 reserved-prefix candidates in front, tags of the three tagged codecs and random tags, dc over int16 incl. +-10000 test ids, secrets of 0 / 16 / 17-32 / 1-15 (invalid) bytes, 0-4 writes per direction read back through a random-chunk reader that optionally returns its last chunk together with io.EOF; short random / client streams; codec frames through transport.Listen(ObfuscatedListener). Non-trivial = distinct successful session / stack run"
+	c.Obs.Rule = "obfuscated2 sessions: client Handshake on a random stream with 0-4 reserved-prefix candidates in front, tags of the three tagged codecs and random tags, dc over int16 incl. +-10000 test ids, secrets of 0 / 16 / 17-32 / 1-15 (invalid) bytes, 0-4 writes per direction read back through a random-chunk reader that optionally returns its last chunk together with io.EOF and non-final chunks together with non-EOF errors (deadline exceeded, unexpected EOF, temporary, no progress) after which the caller keeps reading; short random / client streams; codec frames through transport.Listen(ObfuscatedListener). Non-trivial = distinct successful session / stack run"
 	c.Finish()
 }
